@@ -11,3 +11,7 @@ def check(rep, tier):
     rep.run(core_rules.run, rep, tier, parts=("nodes", "defjvp", "defvjp", "defvjp_argnum"))
     from contracts import tracer_trace
     rep.run(tracer_trace.run, rep, tier, only=("TR-result", "TR-start"))
+    from contracts import rules_exact, rules_scalar
+    rep.run(rules_exact.run, rep, tier, ("X-vjp", "X-jvp", "X-shape"), only=("same-value-twice", "shared-cotangent"))
+    rep.run(rules_exact.run, rep, tier, ("X-vjp", "X-jvp"), which="index", only=("mix",))
+    rep.run(rules_scalar.run_kinks, rep, tier)
